@@ -12,6 +12,7 @@ TRUSTED_BASE = [
   'Lean 4.33 kernel; axioms propext, Classical.choice, Quot.sound only (audited per theorem by #print axioms)',
   'Mathlib v4.33 definitions used in statements (HasDerivAt, ConvexOn, Real.rpow, Finset.sum)',
   'vk/translate.py (T1: Python AST -> Lean for the scalar kernels) and DK/Lemmas/Bridge.lean',
+  'vk/translate_vec.py (T1v: Python AST -> Lean index functions for the whitelisted vector method bodies; numpy broadcasting / shape inference as the translator models it) and DK/Lemmas/BridgeVec.lean',
   'vk correspondence harness (T2): same JSON description drives the real classes and the Lean model at exact rationals',
   'IEEE-754 rounding, numpy broadcasting/reshape, SciPy SLSQP and numdifftools are modelled or parameters, not verified',
 ]
